@@ -47,7 +47,17 @@ def special_cases():
             (bytes([120]) + a(b"n") + struct.pack(">QI", 1, 1), bytes([120]) + a(b"n") + struct.pack(">QI", 1, 2)),
             (bytes([90, 0, 2]) + a(b"n") + struct.pack(">III", 1, 5, 6), bytes([90, 0, 2]) + a(b"n") + struct.pack(">III", 1, 5, 7)),
             (bytes([97, 1]), bytes([70]) + struct.pack(">d", 1.0)), (bytes([110, 8, 0]) + bytes(7) + b"\x80", bytes([110, 8, 0, 1]) + bytes(6) + b"\x80"),
-            (bytes([109, 0, 0, 0, 1, 1]), bytes([77, 0, 0, 0, 1, 1, 0x80])), (bytes([106]), bytes([108, 0, 0, 0, 1]) + i1 + i1)]
+            (bytes([109, 0, 0, 0, 1, 1]), bytes([77, 0, 0, 0, 1, 1, 0x80])), (bytes([106]), bytes([108, 0, 0, 0, 1]) + i1 + i1),
+            # keys that differ only in what the map's key order has to look at last: the bit count of equal bytes, the
+            # float / integer representation, the tail of equal elements
+            (bytes([109, 0, 0, 0, 1, 128]), bytes([77, 0, 0, 0, 1, 1, 128])), (bytes([109, 0, 0, 0, 2, 0xab, 0xe0]), bytes([77, 0, 0, 0, 2, 3, 0xab, 0xe0])),
+            (bytes([77, 0, 0, 0, 2, 3, 0xab, 0xe0]), bytes([77, 0, 0, 0, 2, 4, 0xab, 0xe0])), (bytes([77, 0, 0, 0, 1, 1, 128]), bytes([77, 0, 0, 0, 1, 2, 128])),
+            (bytes([107, 0, 1, 128]), bytes([77, 0, 0, 0, 1, 1, 128])),
+            (bytes([108, 0, 0, 0, 1]) + i1 + bytes([106]), bytes([108, 0, 0, 0, 1]) + i1 + bytes([97, 2])),
+            (bytes([108, 0, 0, 0, 1]) + i1 + bytes([97, 2]), bytes([108, 0, 0, 0, 1]) + i1 + bytes([97, 3])),
+            (bytes([104, 1]) + i1, bytes([104, 2]) + i1 + i1), (a(b"a"), a(b"ab")), (bytes([97, 255]), bytes([98, 0, 0, 1, 0])),
+            (bytes([110, 9, 0]) + bytes(8) + b"\x01", bytes([110, 9, 0, 1]) + bytes(7) + b"\x01"),
+            (bytes([113]) + a(b"m") + a(b"f") + bytes([97, 1]), bytes([113]) + a(b"m") + a(b"f") + bytes([97, 2]))]
     for k1, k2 in keys:
         out.append(bytes([131, 116, 0, 0, 0, 2]) + k1 + i1 + k2 + bytes([97, 2]))
         out.append(bytes([131, 116, 0, 0, 0, 2]) + k2 + i1 + k1 + bytes([97, 2]))
@@ -72,6 +82,12 @@ def run(ctx):
         datas.append(d)
         if rng.random() < 0.6:
             datas += bytesgen.mutations(rng, d, 2)
+    # compressed terms with a long deflated stream (both decoders inflate them with their own code)
+    for n, alphabet in ((60000, 40), (200000, 16)):
+        blob = bytes(rng.randrange(alphabet) for _ in range(n))
+        datas.append(termgen.encode_value(("bits", blob, 8 * n), rng, compress=True)[0])
+        datas.append(termgen.encode_value(("tuple", (("int", 1), ("bits", blob, 8 * n))), rng, canonical=True)[0][:1]
+                     + bytes([104, 2, 97, 1]) + termgen.encode_value(("bits", blob, 8 * n), rng, compress=True)[0][1:])
     datas += [d for d in bytesgen.count_bombs() if True][::3]
     for _ in range(ctx.budget(300, 5000)):
         datas.append(bytes([131]) + bytes(rng.randrange(256) for _ in range(rng.randrange(0, 12))))
